@@ -63,6 +63,8 @@ struct Shared {
     gate_only: Mutex<Option<(u64, u64, usize)>>,
     /// `lhold` / `lunhold`: disk loads wait while held
     lholder: foyer_storage::test_utils::Holder,
+    /// `keep`: entry handles held by the "application" until `unkeep`
+    kept: Mutex<Vec<Box<dyn std::any::Any + Send>>>,
     /// `bget`: lookups running in the background, joined by `join`
     bg: Mutex<Vec<(u64, tokio::task::JoinHandle<String>)>>,
 }
@@ -80,6 +82,7 @@ impl Default for Shared {
             rrel: tokio::sync::watch::channel(0).0,
             gate_only: Default::default(),
             lholder: Default::default(),
+            kept: Default::default(),
             bg: Default::default(),
         }
     }
@@ -622,6 +625,23 @@ fn run_script(script: &[&str], n: usize) {
                         }
                         "ioopen" => {
                             let _ = sh.gate.send_replace(false);
+                            "ok".into()
+                        }
+                        "keep" => {
+                            // a lookup whose entry handle stays alive (an application holding on to a cached value)
+                            let k = geti(&kv, "k");
+                            match hh.as_ref().unwrap().get(&k).await {
+                                Ok(Some(e)) => {
+                                    let r = format!("hit:{}:{:?}", show(e.value()), e.source());
+                                    sh.kept.lock().push(Box::new(e));
+                                    r
+                                }
+                                Ok(None) => "miss".into(),
+                                Err(e) => format!("err:{:?}", e.kind()),
+                            }
+                        }
+                        "unkeep" => {
+                            sh.kept.lock().clear();
                             "ok".into()
                         }
                         "bget" => {
